@@ -270,6 +270,9 @@ package pql
 // ---------------------------------------------------------------- Compile
 
 //@ func pql.Compile
+//@   use clidecl
+//@   function compileSQL
+//@   ensures @function: result0 == compileSQL(source) && (result1 == nil) == compileOK(source)
 //@   ensures @either: (result0 != "" && result1 == nil) || (result0 == "" && result1 != nil)
 
 //@ func pql.(*CompileOptions).Compile
